@@ -11,7 +11,7 @@
 #include <streambuf>
 
 namespace zd {
-Case draw_bits_case(const model::Desc & d);
+Case draw_bits_case(const model::Desc & d, bool allow_large);
 }
 
 namespace {
@@ -201,7 +201,14 @@ Verdict run(const Ctx & x, const Case & c, const std::optional<Fault> & only)
     for (const reff::Mark & m : p.out.marks) {
         std::vector<uint32_t> repl{0u, ~0u, m.value ^ 1u, m.value ^ 0x80000000u, m.value + 1, m.value - 1, reff::MAGIC_HDR, reff::MAGIC_FTR, m.value + reff::FTR_OFFSET, m.value - reff::FTR_OFFSET, uint32_t(mix(c.data.size(), m.offset))};
         if (m.what == "float-width") {
-            repl = {0u, 2u, 4u, 8u, 16u, ~0u, 3u, 12u};
+            // every small width, widths given in bits, byte-swapped widths, powers of two
+            repl.clear();
+            for (uint32_t w = 0; w <= 72; ++w) {
+                repl.push_back(w);
+            }
+            for (uint32_t w : {80u, 96u, 128u, 256u, 512u, 0x04000000u, 0x08000000u, 0x00000400u, 0x00000800u, ~0u, 0x80000004u, 0x80000008u}) {
+                repl.push_back(w);
+            }
         }
         if (m.what == "tag-header" || m.what == "tag-footer") {
             for (const char * k : {"array", "constant", "identity", "affine", "backup", "clamp", "hilbert", "morton", "strided"}) {
@@ -262,7 +269,7 @@ ModeReg reg("C08", [](const zoo::Factory & f) {
     add_inst(
         ctx->inst,
         [ctx] {
-            auto g = rc::gen::exec([ctx] { return draw_bits_case(ctx->d); });
+            auto g = rc::gen::exec([ctx] { return draw_bits_case(ctx->d, false); });
             const char * nc = getenv("VERIF_C08_CASES");
             rc_campaign_json(
                 ctx->inst, nc ? atoi(nc) : tier(6, 60), 100, rc::gen::map(g, [](Case && c) { return c.to_json(); }), [ctx](const json & j) { return run(*ctx, Case::from_json(j), std::nullopt); }
